@@ -11,6 +11,10 @@ import CE.Marshal.GraphProofs
     emitted: exactly the marker/reference conditions under which the validator accepts the
     document and the builder can resolve every reference (C13);
   * `named_pointers_are_the_markers` — the pointers named at the end are the markers emitted.
+  * `emission_does_not_depend_on_fuel` — the model's emission functions take a fuel argument (the heap may be
+    cyclic, so they are not structurally recursive); whatever they return with some amount of fuel they return
+    with any larger amount, so two runs that both finish agree: the bound never shapes the output the
+    GRAPH.EMIT correspondence compares with the real iterator.
   `_partial`: termination of the emission (the duplicate pass marks at least one pointer on
   every cycle) and the isomorphism of the rebuilt graph are decided by the oracle of
   `bin/check C20` (watchdog + parallel-walk bijection), not by a theorem.
@@ -29,6 +33,19 @@ theorem named_pointers_are_the_markers (h : Heap) (shared : Nat → Bool) (fuel 
     (out : List GEv) (named : List Nat) (he : emitPtr h shared fuel [] root = some (out, named)) :
     named = knownAfter [] out :=
   ((emit_wf h shared fuel).1 [] root out named he).2
+
+/-- the fuel bound of the model never shapes its output: two amounts of fuel that both let the emission
+    finish give the same events and the same named pointers -/
+theorem emission_does_not_depend_on_fuel (h : Heap) (shared : Nat → Bool) (f1 f2 : Nat) (named : List Nat) (root : Nat)
+    (r1 r2 : List GEv × List Nat)
+    (h1 : emitPtr h shared f1 named root = some r1) (h2 : emitPtr h shared f2 named root = some r2) : r1 = r2 := by
+  rcases Nat.le_total f1 f2 with hle | hle
+  · obtain ⟨k, rfl⟩ := Nat.exists_eq_add_of_le hle
+    have := emitPtr_fuel_add h shared f1 named root r1 h1 k
+    rw [this] at h2; exact Option.some.inj h2
+  · obtain ⟨k, rfl⟩ := Nat.exists_eq_add_of_le hle
+    have := emitPtr_fuel_add h shared f2 named root r2 h2 k
+    rw [this] at h1; exact (Option.some.inj h1).symm
 
 /-- non-vacuity: a two-node cycle with a self-loop -/
 example :
